@@ -209,6 +209,20 @@ impl Group for Request1 {
                     }
                 }
             }
+            // a stalled head: the client sends a proper prefix of the head and then nothing, keeping the connection open.
+            // It has to end in an error, whatever the prefix looks like (a complete request line and Host line included).
+            if i % 2 == 0 {
+                let first_line_end = bytes.iter().position(|b| *b == b'\n').map_or(1, |p| p + 1);
+                let second_line_end = bytes[first_line_end..head_len].iter().position(|b| *b == b'\n').map_or(first_line_end, |p| first_line_end + p + 1);
+                let mut stalls = vec![head_len - 1, head_len.saturating_sub(2).max(1), first_line_end, second_line_end, (second_line_end + 5).min(head_len - 1), rng.range(1, head_len - 1)];
+                stalls.sort();
+                stalls.dedup();
+                for c in stalls {
+                    for pat in ["[]", "[7]"] {
+                        v.push(format!("{} #stalled", mk(&bytes[..c], pat, "").replacen("c07.request ", "c07.request-open ", 1)));
+                    }
+                }
+            }
             for c in cuts {
                 v.push(mk(&bytes, &format!("[{c},100000]"), &tag));
             }
@@ -285,6 +299,13 @@ impl Group for Request1 {
     fn oracle(&self, _ctx: &Ctx, line: &str, out: &str) -> Option<(String, String)> {
         if out == "panic" {
             return Some((format!("panic:{}", &line[..line.len().min(300)]), "read::request panicked".into()));
+        }
+        if line.ends_with(" #stalled") {
+            // a head that never was completed, on a connection that stays open: an error, not a hang, not a request
+            if !out.starts_with("err:") {
+                return Some((format!("stalled:{}", &line[..line.len().min(300)]), format!("a stalled, incomplete head was not refused: {out}")));
+            }
+            return None;
         }
         if let Some((_, exp)) = line.split_once(" #") {
             let exp = String::from_utf8(unhex(exp)?).ok()?;
